@@ -69,8 +69,9 @@ def run(ctx):
             cases.append({"base": "std", "base_side": 1, "tokens": h, "smart": True, "auto": auto, "family": "smart",
                           "kase": {"kind": "c20", "auto": auto}})
     allc = sc.with_flavors(cases, flavors)
-    traces = sysfam.run_cases(ctx, allc)
-    sysfam.judge(ctx, allc, traces, "on-demand family", clauses=CLAUSES, extra_sig=xsig)
+    for k in range(0, len(allc), sc.CHUNK):          # chunked: see syscheck.run_family
+        sub = allc[k:k + sc.CHUNK]
+        sysfam.judge(ctx, sub, sysfam.run_cases(ctx, sub), "on-demand family", clauses=CLAUSES, extra_sig=xsig)
     ctx.count(evaluations=len(allc), nontrivial=len({str([c["flavor"], c["tokens"], c["auto"]]) for c in allc
                                                      if any(t[0] in ("Req", "Unreq") for t in c["tokens"])}))
     ctx.sample({k: allc[len(allc) // 3][k] for k in ("flavor", "tokens", "auto")})
